@@ -170,7 +170,15 @@ def convert_to_lut(op, lut_values, lut_name):
     assert ifm.dtype == ofm.dtype
     lut_tensor = create_lut_tensor(op.name + "_values", lut_values, ofm.dtype)
     op.set_activation_lut(lut_tensor)
+    # The operator keeps the IFM/OFM shapes it had: they can differ from the shapes of its tensors when a RESHAPE next to
+    # the operator has already been bypassed. Only the shape of the new scalar input is added.
+    ifm_shape = op.ifm_shapes[0] if op.ifm_shapes else None
+    ofm_shape = op.ofm_shapes[0] if op.ofm_shapes else None
     op.set_ifm_ofm_shapes()
+    if ifm_shape is not None:
+        op.ifm_shapes[0] = ifm_shape
+    if ofm_shape is not None:
+        op.ofm_shapes[0] = ofm_shape
     DebugDatabase.add_optimised(op, op)
     return op
 
